@@ -102,6 +102,30 @@ impl<T: ?Sized> Write<T> {
         }
     }
 
+    /// Implementation detail of `field!`; rebuilds the projected reference from the field pointer.
+    ///
+    /// The reference handed to `__from_ref_and_ptr` is a function argument and thus a coercion
+    /// site. Whenever it is deref-coerced, the pointer cast next to it is normally rejected, but
+    /// the two are not checked at the same point of type inference: an unsizing coercion that is
+    /// still ambiguous when the reference is checked falls back to a deref coercion, while the
+    /// cast is checked last and is then accepted as an unsizing cast. An `as` cast never goes
+    /// through `Deref`, so the result is always built from the pointer, and the reference only
+    /// supplies the lifetime.
+    ///
+    /// # Safety
+    ///
+    /// Same requirements as `assume` for the value behind `ptr`, which must be valid for the
+    /// lifetime of `this`.
+    #[inline]
+    #[doc(hidden)]
+    pub unsafe fn __with_ptr<'a>(this: &'a Self, ptr: *const T) -> &'a Self {
+        let _ = this;
+        unsafe {
+            // SAFETY: `Self` is `repr(transparent)`.
+            &*(ptr as *const Self)
+        }
+    }
+
     /// Unlocks the referenced value, providing full interior mutability.
     #[inline]
     pub fn unlock(&self) -> &T::Unlocked
@@ -268,12 +292,22 @@ macro_rules! __field {
         // - the `ref` binding mode also forbids (under edition 2024) going through simple
         //   references (i.e. it will reject `&Write<&Type>`s);
         // - similarly, the `__from_ref_and_ptr` method takes both a reference (for the lifetime)
-        //   and a pointer, causing a compilation failure if the first argument was coerced.
+        //   and a pointer, causing a compilation failure if the first argument was coerced;
+        // - the result is rebuilt from the pointer by `__with_ptr`, as there are corner cases in
+        //   which the first argument is deref-coerced and the cast still compiles.
         match $value {
             &$crate::barrier::Write {
                 __inner: $type { ref $field, .. },
                 ..
-            } => unsafe { $crate::barrier::Write::__from_ref_and_ptr($field, $field as *const _) },
+            } => {
+                let __ptr = $field as *const _;
+                unsafe {
+                    $crate::barrier::Write::__with_ptr(
+                        $crate::barrier::Write::__from_ref_and_ptr($field, __ptr),
+                        __ptr,
+                    )
+                }
+            }
         }
     };
 }
